@@ -292,6 +292,32 @@ def fam_death_starve(rng, n, tag="dstarve"):
         out.append(s)
     return out
 
+def fam_death_long(rng, n, tag="dlong"):
+    """2-3 peers with desync detection on; one dies cleanly and is dropped by timeout; the survivors keep
+    playing for many seconds after the dead peer's endpoint has gone from Disconnected to Shutdown (5 s):
+    whatever the session keeps producing for that endpoint (checksum reports, inputs, keep-alives) must not
+    pile up anywhere"""
+    out = []
+    for i in range(n):
+        n_peers = rng.choice([2, 3, 3])
+        w = rng.choice([2, 4, 8])
+        to = rng.choice([600, 1000])
+        s = Scen("%s_%d" % (tag, i), players=n_peers, window=w, lat=rng.choice([5, 20]), seed=rng.randrange(1 << 30),
+                 sparse=rng.randrange(2), pred=rng.choice(["repeat", "default"]), inputrun=rng.choice([1, 3]),
+                 timeout=to, notify=rng.choice([200, 500]), desync=rng.choice([1, 2, 5]))
+        _topology(rng, s, n_peers, n_peers, delays=(0, 0, 1))
+        victim = rng.randrange(1, n_peers + 1)
+        surv = [p for p in range(1, n_peers + 1) if p != victim]
+        t_die = rng.randrange(500, 1500)
+        end = t_die + to + 5000 + rng.choice([2000, 6000])
+        for p in range(1, n_peers + 1):
+            s.ticks(p, rng.randrange(0, 16), end if p != victim else t_die, 16)
+        s.at(t_die, "kill", victim)
+        for p in surv:
+            s.at(end - 10, "progress", p, 100)
+        out.append(s)
+    return out
+
 def fam_double_death(rng, n, tag="dd", expect=()):
     """3-4 peers; two remote peers die within the same poll interval of the survivor while holding
     different numbers of frames (different input delays / tick phases): the survivor must cut both off
